@@ -14,6 +14,7 @@ type VerifC37ClientParams struct {
 	Accepts     int  // Accept calls before Close (<= Forwards)
 	CancelOK    bool // the peer's answer to the cancel request that Close sends
 	LateForward bool // after Close returned the peer sends one more open for the address
+	DenyFirst   bool // the peer denies the first listen request; an open for the address is then sent (must be rejected) and the application asks again (granted)
 }
 
 type VerifC37ClientResult struct {
@@ -25,12 +26,14 @@ type VerifC37ClientResult struct {
 	AfterCloseErrored bool // Accept finally returned an error
 	Confirmed         []uint32 // peer channel ids the client accepted
 	Rejected          []uint32 // peer channel ids the client rejected
+	FirstListenErr    bool     // DenyFirst: the denied listen request returned an error
 }
 
 const (
 	verifC37FwdBase      = 500
 	verifC37StrangerBase = 700
 	verifC37LateID       = 900
+	verifC37DeniedID     = 950
 )
 
 func VerifC37Client(p VerifC37ClientParams) *VerifC37ClientResult {
@@ -56,6 +59,7 @@ func VerifC37Client(p VerifC37ClientParams) *VerifC37ClientResult {
 		return Marshal(channelOpenMsg{ChanType: "forwarded-tcpip", PeersID: id, PeersWindow: 1 << 20, MaxPacketSize: 1 << 15,
 			TypeSpecificData: Marshal(&forwardedTCPPayload{Addr: "10.0.0.1", Port: port, OriginAddr: "192.0.2.7", OriginPort: 4711})})
 	}
+	deny := p.DenyFirst
 	// the scripted peer
 	go func() {
 		for {
@@ -71,7 +75,12 @@ func VerifC37Client(p VerifC37ClientParams) *VerifC37ClientResult {
 			case *globalRequestMsg:
 				switch x.Type {
 				case "tcpip-forward", "streamlocal-forward@openssh.com":
-					b.WritePacket(Marshal(globalRequestSuccessMsg{}))
+					if deny {
+						deny = false
+						b.WritePacket(Marshal(globalRequestFailureMsg{}))
+					} else {
+						b.WritePacket(Marshal(globalRequestSuccessMsg{}))
+					}
 				case "cancel-tcpip-forward", "cancel-streamlocal-forward@openssh.com":
 					if p.CancelOK {
 						b.WritePacket(Marshal(globalRequestSuccessMsg{}))
@@ -93,10 +102,20 @@ func VerifC37Client(p VerifC37ClientParams) *VerifC37ClientResult {
 
 	var l net.Listener
 	var err error
-	if p.Unix {
-		l, err = cl.ListenUnix("/sock")
-	} else {
-		l, err = cl.ListenTCP(&net.TCPAddr{IP: net.IPv4(10, 0, 0, 1), Port: 2222})
+	listen := func() {
+		if p.Unix {
+			l, err = cl.ListenUnix("/sock")
+		} else {
+			l, err = cl.ListenTCP(&net.TCPAddr{IP: net.IPv4(10, 0, 0, 1), Port: 2222})
+		}
+	}
+	listen()
+	if p.DenyFirst {
+		res.FirstListenErr = err != nil
+		// nobody listens: an open for the address must be answered with a rejection
+		b.WritePacket(openFor(verifC37DeniedID, false))
+		verifWaitIdle()
+		listen()
 	}
 	if err != nil {
 		res.ListenErr = err.Error()
